@@ -17,7 +17,9 @@
 EXTENDS WordSubst, Json, IOUtils
 
 CONSTANTS MaxLen,      \* longest word of family "word" (units)
-          PairSlice,   \* 1: every pair New x U and U x New; k: a 1/k sample (selected by SEED)
+          PairCoreSlice, \* pairs of a new unit and a Core unit (both orders): 1 all, k a 1/k sample (by SEED), 0 none
+          PairNewSlice,  \* pairs of two new units: likewise
+          Wide,          \* TRUE: every context x state also for words of two and more units
           TripleSlice, \* 0: no triples; k: a 1/k sample of the triples Core x New x Core / New x Core x New
           RawMax,      \* longest raw backquote text (tokens)
           DoEmit       \* print the cases (FALSE: laws only)
@@ -167,7 +169,9 @@ Hash(q, i) == IF i > Len(q) THEN 7 ELSE (q[i] * 31 + Hash(q, i + 1) * 17) % 1000
 HasNew(q) == \E i \in DOMAIN q : IsNewIdx(q[i])
 SelectedWord(q) ==
   CASE Len(q) <= 1 -> TRUE
-    [] Len(q) = 2 -> HasNew(q) /\ (PairSlice <= 1 \/ (Hash(q, 1) + Seed) % PairSlice = 0)
+    [] Len(q) = 2 -> /\ HasNew(q)
+                     /\ LET k == IF IsNewIdx(q[1]) /\ IsNewIdx(q[2]) THEN PairNewSlice ELSE PairCoreSlice
+                        IN k > 0 /\ (Hash(q, 1) + Seed) % k = 0
     [] OTHER -> /\ TripleSlice > 0
                 /\ (IsNewIdx(q[1]) # IsNewIdx(q[2])) /\ (IsNewIdx(q[2]) # IsNewIdx(q[3]))
                 /\ (Hash(q, 1) + Seed) % TripleSlice = 0
@@ -192,8 +196,12 @@ Word == IF vfam = "raw" THEN RawUnit ELSE [i \in DOMAIN vws |-> U[vws[i]]]
 (* the raw family also inside double quotes *)
 Words == IF vfam = "raw" THEN <<RawUnit, DQ(RawUnit)>> ELSE <<Word>>
 
-CtxFor(w) == IF vfam = "raw" THEN {1, 3, 10} ELSE DOMAIN CtxSeq
-StatesFor(w) == IF vfam = "raw" THEN {1} ELSE DOMAIN StateTable
+(* words of two and more units: a reduced fan unless Wide *)
+CtxFor(w) == IF vfam = "raw" THEN {1, 3, 10}
+             ELSE IF Len(vws) = 1 \/ Wide THEN DOMAIN CtxSeq ELSE {1, 3, 6, 7, 10}
+StatesFor(w) == IF vfam = "raw" THEN {1}
+                ELSE IF Len(vws) = 1 \/ Wide THEN DOMAIN StateTable
+                ELSE {s \in DOMAIN StateTable : (Hash(vws, 1) + s * 3 + Seed) % 8 < 3}
 
 Cases(w) ==
   { <<c, s, Outcome(CtxSeq[c], w, StateTable[s])>> : c \in CtxFor(w), s \in StatesFor(w) }
